@@ -318,7 +318,7 @@ class BaseModel(SolverMixin, ModelInterface):
                 ) from e
 
             if _verif.ON:
-                _verif.emit('before_done', self)
+                _verif.emit('before_done', self, chk=_verif.vec(get_check_values()))
 
         for iteration in range(1, max_iter + 1):
             previous_values = current_values.copy()
@@ -423,7 +423,7 @@ class BaseModel(SolverMixin, ModelInterface):
                         ) from e
 
                     if _verif.ON:
-                        _verif.emit('after_done', self)
+                        _verif.emit('after_done', self, chk=_verif.vec(get_check_values()))
 
                 status = SolutionStatus.SOLVED.value
                 break
